@@ -35,6 +35,7 @@ def check(prog: Program, run: Run) -> None:
     compu.tabintp_forms(prog, run, "C03.R2", "C03.R2")
     compu.texttable_roles(prog, run, "C03.R2")
     compu.rounding(prog, run, "C03.R3")
+    compu.horner(prog, run, "C03.R3")  # incl. which type decides the rounding of RAT-FUNC
     compu.dop_gates(prog, run, "C03.R4")
     from . import c04
     c04.twoc_minimum_is_exact(prog, run, "C03.R5")
